@@ -166,6 +166,9 @@ class Injector(object):
             raise fs.errors.OperationFailed(path=str(path), msg="injected fault")
         if self.kind == "oserror":
             raise OSError(errno.EIO, "injected fault")
+        if self.kind.startswith("oserror-"):
+            # errno-specific handling (retry loops, "not found" shortcuts) must not swallow the failure either
+            raise OSError(getattr(errno, self.kind.split("-", 1)[1]), "injected fault")
         if self.kind == "crash":
             raise Crash()
         raise Halt()
@@ -663,6 +666,13 @@ def build_world(case, tmpbase):
         raws.append(raw)
         return raw
 
+    multi = None
+    mm = re.match(r"^multi\((mem|os)\)>(mem|os)$", backends)
+    if mm:
+        # the source is a MultiFS: the (fault-injecting) write layer on top of a read-only layer that holds a
+        # STALE revision of every source file under the same name (shadowed)
+        multi = True
+        backends = "%s>%s" % (mm.group(1), mm.group(2))
     m = re.match(r"^(sub|same|subsame)\((mem|os)\)$", backends)
     if m:
         shape, kind = m.group(1), m.group(2)
@@ -703,6 +713,17 @@ def build_world(case, tmpbase):
     else:
         w.src_fs = present(sraw, "src")
         w.dst_fs = present(draw, "dst")
+    if multi:
+        from fs.multifs import MultiFS
+        low = MemoryFS()
+        raws.append(low)
+        for pth, content in case["src_tree"]["files"]:
+            low.makedirs(os.path.dirname("/" + pth), recreate=True)
+            low.writebytes(pth, b"STALE-REVISION")
+        mfs = MultiFS(auto_close=False)
+        mfs.add_fs("low", low, write=False, priority=0)
+        mfs.add_fs("top", w.src_fs, write=True, priority=10)
+        w.src_fs = mfs
     w.snap_src = lambda: snapshot(sraw, spre)
     w.snap_dst = lambda: snapshot(draw, dpre)
 
@@ -962,6 +983,16 @@ def all_cases(tier, seed):
                             add("move_file", style, backends, st, T(),
                                 dict(src_path=fpath, dst_path="g.txt", preserve_time=pt), read_cap=2,
                                 no_rename=True)
+    # ---- the source is a MultiFS whose write layer shadows stale revisions in a lower layer
+    for tname, tree, fpath in FILE_TREES:
+        for backends in ("multi(mem)>mem", "multi(os)>mem"):
+            for pt in (False, True):
+                add("move_file", "wrap", backends, tree, T(), dict(src_path=fpath, dst_path="g.txt", preserve_time=pt),
+                    read_cap=None)
+    for tname, tree in DIR_TREES:
+        for workers in (0, 2):
+            add("move_dir", "wrap", "multi(mem)>mem", tree, T(),
+                dict(src_path="d", dst_path="e", workers=workers, preserve_time=False), read_cap=None)
     # ---- FS.move on the filesystem itself
     for tname, tree, fpath in FILE_TREES:
         for backends in ("same(mem)", "same(os)", "subsame(mem)", "subsame(os)"):
@@ -1062,7 +1093,10 @@ def explore_case(case, tmpbase, repeats=1, stats=None):
     for rep in range(repeats if workers > 0 else 1):
         for k in range(n):
             prim = trace[k][0]
-            for kind in fault_kinds(case):
+            kinds = fault_kinds(case)
+            if prim in ("read", "write", "close", "upload", "readinto", "flush"):
+                kinds = kinds + ("oserror-EINTR", "oserror-ENOENT", "oserror-EAGAIN")
+            for kind in kinds:
                 if prim == "os.rename" and kind == "fserror":
                     continue          # os.rename raises OSError only
                 for prefix in ((False, True) if prim in ("write", "upload") else (False,)):
@@ -1083,7 +1117,7 @@ def explore_case(case, tmpbase, repeats=1, stats=None):
                             stats["errors"][res["error"]] = stats["errors"].get(res["error"], 0) + 1
                         if workers == 0 and res["trace"][:k + 1] != trace[:k + 1]:
                             stats["nondeterministic"] += 1
-                    for vkind, detail in judge(case, res, kind):
+                    for vkind, detail in judge(case, res, kind.split("-")[0]):
                         violations.append(dict(kind=vkind, detail=detail, fault_step=k,
                                                fault_key=list(trace[k]), fault_kind=fkind,
                                                primitive=prim, res=res))
@@ -1434,9 +1468,9 @@ def explore(tier, seed, time_budget=None, procs=None, progress=False, known_sigs
     t0 = time.time()
     thorough = tier == "thorough"
     if time_budget is None:
-        time_budget = 480.0 if thorough else 26.0
+        time_budget = 900.0 if thorough else 150.0
     if procs is None:
-        procs = max(1, min(12 if thorough else 4, (os.cpu_count() or 2) - 1))
+        procs = max(1, min(14 if thorough else 12, (os.cpu_count() or 2) - 1))
     cases, universe = select_cases(tier, seed)
     repeats = 3 if thorough else 2
     deadline = t0 + time_budget
@@ -1592,7 +1626,7 @@ def replay(report, path):
     try:
         for attempt in range(1 if workers == 0 else 25):
             res = run_once(case, tmpbase, target, kind, prefix)
-            viols = [v for v in judge(case, res, kind) if v[0] == d["kind"]]
+            viols = [v for v in judge(case, res, kind.split("-")[0]) if v[0] == d["kind"]]
             if attempt == 0 or viols:
                 print("function  :", case["function"], case["style"], case["backends"], json.dumps(case["args"]))
                 print("fault     : step %s (%s) %s" % (d["fault_step"], d["primitive"], fkind))
